@@ -94,6 +94,7 @@ fn data_op(cap: usize) -> impl Strategy<Value = Op> {
         3 => (payload(cap), proptest::option::weighted(0.6, spec())).prop_map(|(p, s)| Op::AddMixed(p, s)),
         2 => (payload(cap), spec()).prop_map(|(p, s)| Op::AddEncrypted(p, s)),
         2 => (payload(cap), mode()).prop_map(|(p, m)| Op::AddChunk(p, m)),
+        1 => (payload(cap), spec()).prop_map(|(p, s)| Op::AddPrebuiltEncrypted(p, s)),
     ]
 }
 
@@ -382,6 +383,42 @@ fn main() {
                 ]
             })),
             move |p: &Program| check_program(p, &k4),
+        )
+        .shards(8),
+    );
+    // Chunk counts around 2^16 (the count is a 24-bit field) and a lone pre-built encrypted chunk
+    let k5 = known.clone();
+    ck.run(
+        Section::enumerate(
+            "many-chunks-and-lone-prebuilt",
+            "builder with chunk size 1 and 65 535 / 65 536 / 65 537 / 70 000 one-byte chunks (add_data in pieces of 400); a builder whose only chunk is a pre-built encrypted chunk (Salsa20 / ARC4, payload 0 / 1 / 100 bytes), alone and followed by a plain chunk".to_string(),
+            move || {
+                let keys = vec![KeyEntry { name: 0x0102_0304_0506_0708, key: [9u8; 16] }];
+                let mut v = Vec::new();
+                for total in [65_535usize, 65_536, 65_537, 70_000] {
+                    let mut ops = vec![Op::ChunkSizeUnchecked(1)];
+                    let mut left = total;
+                    let mut i = 0u64;
+                    while left > 0 {
+                        let n = left.min(400);
+                        ops.push(Op::AddData(Payload { len: Len::Abs(n), class: PClass::Random, content_seed: i }));
+                        left -= n;
+                        i += 1;
+                    }
+                    v.push(Program { keys: keys.clone(), builtin_store: false, cap: 1 << 20, ops });
+                }
+                for cipher in [Cipher::Salsa20, Cipher::Arc4] {
+                    for n in [0usize, 1, 100] {
+                        let pl = Payload { len: Len::Abs(n), class: PClass::Random, content_seed: n as u64 };
+                        let sp = Spec { cipher, key_ix: 0, iv: [4, 3, 2, 1] };
+                        v.push(Program { keys: keys.clone(), builtin_store: false, cap: 1 << 20, ops: vec![Op::AddPrebuiltEncrypted(pl.clone(), sp)] });
+                        v.push(Program { keys: keys.clone(), builtin_store: false, cap: 1 << 20, ops: vec![Op::AddPrebuiltEncrypted(pl.clone(), sp), Op::AddData(pl.clone())] });
+                        v.push(Program { keys: keys.clone(), builtin_store: false, cap: 1 << 20, ops: vec![Op::AddData(pl.clone()), Op::AddPrebuiltEncrypted(pl, sp)] });
+                    }
+                }
+                Box::new(v.into_iter())
+            },
+            move |p: &Program| check_program(p, &k5),
         )
         .shards(8),
     );
